@@ -36,6 +36,11 @@ def cstr(s):
     return "[" + ";".join(str(ord(ch)) for ch in s) + "]" if s else "[]"
 
 
+def com(st, n=150):
+    """text usable inside a Coq comment (no comment delimiters, no string quotes)"""
+    return st.replace("(*", "( *").replace("*)", "* )").replace('"', "''").replace("\n", " | ")[:n]
+
+
 def flags_value(node):
     if node is None:
         return 0
@@ -119,7 +124,7 @@ def render(facts):
            "From Coq Require Import List NArith.", "Import ListNotations.", "Open Scope N_scope.", ""]
     for n in REGEXES:
         pat, fl = facts["regex"][n]
-        out.append("(* %s = re.compile(%r, %d) *)" % (n, pat, fl))
+        out.append("(* %s = re.compile(%s, %d) *)" % (n, com(repr(pat)), fl))
         out.append("Definition %s_src : list N := %s." % (n[1:], cstr(pat)))
         out.append("Definition %s_flags : N := %d." % (n[1:], fl))
     out.append("")
@@ -128,7 +133,7 @@ def render(facts):
         out.append("Definition %s_stmts : list (list N) := [" % n[1:])
         body = facts["funcs"][n]
         for i, st in enumerate(body):
-            out.append("  (* %s *)" % st.replace("(*", "( *").replace("*)", "* )").replace("\n", " | ")[:150])
+            out.append("  (* %s *)" % com(st))
             out.append("  %s%s" % (cstr(st), ";" if i + 1 < len(body) else ""))
         out.append("].")
         out.append("")
@@ -136,7 +141,7 @@ def render(facts):
     out.append("   appended to the text handed to pycparser *)")
     out.append("Definition parse_front_stmts : list (list N) := [")
     for i, st in enumerate(facts["parse"]):
-        out.append("  (* %s *)" % st.replace("(*", "( *").replace("*)", "* )").replace("\n", " | ")[:150])
+        out.append("  (* %s *)" % com(st))
         out.append("  %s%s" % (cstr(st), ";" if i + 1 < len(facts["parse"]) else ""))
     out.append("].")
     return "\n".join(out) + "\n"
